@@ -25,7 +25,8 @@ def queries(tier, seed, build):
         qs.append(q)
     # stretching methods: concrete lengths per query, contents symbolic
     grid = [("md5crypt", 2, 9)] if tier == "quick" else \
-        [(n, pl, sl) for n in ("md5crypt", "sunmd5", "sunmd5-comma", "sha1crypt") for pl, sl in ((0, 1), (2, 4), (2, 9), (3, 12))]
+        [(n, pl, sl) for n in ("md5crypt", "sunmd5", "sunmd5-comma", "sha1crypt") for pl, sl in ((0, 1), (2, 4), (2, 9), (3, 12))
+         if not (n == "sha1crypt" and sl < 3)]      # a sha1crypt tail needs at least "N$s"
     for n, pl, sl in grid:
         q = rel_query(BY_NAME[n], "c07-pure-%s-p%d-s%d" % (n, pl, sl), "REL_PURE", max_p=max(pl, 1), max_s=max(sl, 1),
                       extra_defs=["FIX_PLEN=%d" % pl, "FIX_SLEN=%d" % sl], timeout=1500 if tier == "quick" else 3000)
